@@ -597,6 +597,10 @@ class FrontEnds(Case):
         x = np.array(vals, dtype=float)[sel]
         out["gross_range_test"] = (sel, q.gross_range_test(x, fail_span=(0, 5)))
         out["rate_of_change_test"] = (sel, q.rate_of_change_test(x, t[sel], threshold=1.0))
+        # tests that take the depth and the position columns: those must be restricted to the same rows
+        zz, la, lo = (np.array(c_, dtype=float)[sel] for c_ in z)
+        out["density_inversion_test"] = (sel, q.density_inversion_test(x, zz, suspect_threshold=0.5, fail_threshold=-1.0))
+        out["location_test"] = (sel, q.location_test(lo, la, bbox=(-10, -10, 40, 14), range_max=400000))
         return out
 
     def one(self, front, vals, times, window):
@@ -612,8 +616,9 @@ class FrontEnds(Case):
         stm = replay.real_module("ioos_qc.streams")
         rsm = replay.real_module("ioos_qc.results")
         n = len(vals)
-        z = [1.0] * n
-        conf = {"streams": {"v": {"qartod": {"gross_range_test": {"fail_span": [0, 5]}, "rate_of_change_test": {"threshold": 1.0}}}}}
+        # depth, latitude and longitude columns with distinct values per row
+        z = ([1.0 + 2.5 * i for i in range(n)], [2.0 + 3.0 * i for i in range(n)], [5.0 + 11.0 * i * (-1) ** i for i in range(n)])
+        conf = {"streams": {"v": {"qartod": {"gross_range_test": {"fail_span": [0, 5]}, "rate_of_change_test": {"threshold": 1.0}, "density_inversion_test": {"suspect_threshold": 0.5, "fail_threshold": -1.0}, "location_test": {"bbox": [-10, -10, 40, 14], "range_max": 400000}}}}}
         win = {}
         if window[0] is not None:
             win["starting"] = pd.Timestamp(window[0], unit="s")
@@ -622,7 +627,7 @@ class FrontEnds(Case):
         if win:
             conf["window"] = win
         t = pd.to_datetime(np.array(times, dtype="int64"), unit="s")
-        df = pd.DataFrame({"time": t, "v": np.array(vals, dtype=float), "z": z, "lat": z, "lon": z})
+        df = pd.DataFrame({"time": t, "v": np.array(vals, dtype=float), "z": z[0], "lat": z[1], "lon": z[2]})
         with warnings.catch_warnings():
             warnings.simplefilter("ignore")
             try:
@@ -638,7 +643,7 @@ class FrontEnds(Case):
                     if win:
                         return None  # QcConfig.run takes a bare test mapping (no window)
                     qc = cfgm.QcConfig(conf["streams"]["v"])
-                    got = qc.run(inp=list(vals), tinp=df["time"].to_numpy(), zinp=z)
+                    got = qc.run(inp=list(vals), tinp=df["time"].to_numpy(), zinp=z[0], lat=z[1], lon=z[2])
                     res = None
                 if res is not None:
                     got = rsm.collect_results(list(res), how="dict").get("v", {})
